@@ -803,16 +803,23 @@ def opProp (op : String) : String :=
   else if op.startsWith "send" then "C16"
   else "C18"
 
-/-- the log segment of one operation with the handler blocks (a `c<token>/…` entry and the transmissions that follow it)
-in a canonical order: no property fixes the order in which the handlers of one packet are invoked -/
-def canonSeg (sends : Nat → Nat) (seg : List String) : List String :=
+/-- the log segment of one operation with the handler blocks in a canonical order: no property fixes the order in which
+the handlers of one packet are invoked. A block is a `c<token>/…` entry and the `blockLen token` entries its callback
+causes: one transmission per packet it sends to another device, and per packet it sends to the device itself one
+re-entrant `n<token>/…` entry per registered handler (plus the transmission when the own address is the broadcast
+address) -/
+def canonSeg (blockLen : Nat → Nat) (seg : List String) : List String :=
   -- which transmission met which link answer depends on the invocation order: compare the transmissions without
-  -- their answers inside the blocks, and the sequence of answers separately; a block is a `c<token>/…` entry and the
-  -- `sends token` transmissions its callback makes; runs of consecutive blocks are sorted
+  -- their answers inside the blocks, and the sequence of answers separately; runs of consecutive blocks are sorted, and
+  -- inside a block runs of consecutive re-entrant entries
   let strip (x : String) : String := if x.startsWith "tok/" || x.startsWith "ter/" then "t/" ++ (x.drop 4).toString else x
   let answers := seg.filterMap fun x => if x.startsWith "tok/" then some "o" else if x.startsWith "ter/" then some "e" else none
   let tokenOf (x : String) : Nat := (((x.drop 1).toString.splitOn "/").headD "").toNat?.getD 0
   let flush (run : List String) : List String := (run.toArray.qsort (· < ·)).toList
+  let rec sortN (l : List String) (run : List String) (acc : List String) : List String :=
+    match l with
+    | [] => acc ++ flush run
+    | x :: t => if x.startsWith "n" then sortN t (x :: run) acc else sortN t [] (acc ++ flush run ++ [x])
   let rec go (l : List String) (fuel : Nat) (run : List String) (acc : List String) : List String :=
     match fuel with
     | 0 => acc ++ flush run ++ l
@@ -821,15 +828,15 @@ def canonSeg (sends : Nat → Nat) (seg : List String) : List String :=
       | [] => acc ++ flush run
       | x :: t =>
         if x.startsWith "c" then
-          let k := sends (tokenOf x)
-          go (t.drop k) fuel ((String.intercalate "," (x :: (t.take k).map strip)) :: run) acc
+          let k := blockLen (tokenOf x)
+          go (t.drop k) fuel ((String.intercalate "," (x :: sortN ((t.take k).map strip) [] [])) :: run) acc
         else go t fuel [] (acc ++ flush run ++ [strip x])
   go seg (seg.length + 1) [] [] ++ ["answers:" ++ String.join answers]
 
 def scenProto (addr rxq txq ops obs : String) : Verdict :=
-  match runProtoSteps addr rxq txq ops with
+  match runProtoStepsN addr rxq txq ops with
   | none => .bad "parse"
-  | some (results, log) =>
+  | some (results, log, counts) =>
     let a := joinOr results ";" ++ " " ++ joinOr log ","
     if a == obs then .ok
     else
@@ -843,18 +850,29 @@ def scenProto (addr rxq txq ops obs : String) : Verdict :=
           let endOf (j : Nat) : Nat := (((rs.getD j "").splitOn "#").getD 1 "0").toNat?.getD 0
           let lo := if i = 0 then 0 else endOf (i - 1)
           (lg.drop lo).take (endOf i - lo)
-        -- transmissions made by each handler's callback, by token (from the `add` operations)
-        let sendsTab : List (Nat × Nat) := opl.filterMap fun o =>
+        -- what each handler's callback sends, by token (from the `add` operations): packets to the device itself, others
+        let own := (parseHexNat addr).getD 0
+        let sendsTab : List (Nat × Nat × Nat) := opl.filterMap fun o =>
           match o.splitOn "/" with
-          | ["add", _, tok, sd] => some (tok.toNat?.getD 0, if sd == "-" then 0 else (sd.splitOn "+").length)
+          | ["add", _, tok, sd] =>
+            let ps := if sd == "-" then [] else (sd.splitOn "+").filterMap parsePacket
+            let loops := (ps.filter fun q => q.addr.toNat == own).length
+            some (tok.toNat?.getD 0, loops, ps.length - loops)
           | _ => none
-        let sends (t : Nat) : Nat := ((sendsTab.find? (·.1 == t)).map (·.2)).getD 0
+        let blockLen (i : Nat) (t : Nat) : Nat :=
+          match sendsTab.find? (·.1 == t) with
+          | some (_, loops, others) => loops * (counts.getD i 0 + (if own == 0xffff then 1 else 0)) + others
+          | none => 0
         let firstBad := (List.range opl.length).find? fun i =>
-          ires.getD i "?" != results.getD i "?" || canonSeg sends (seg ilog ires i) != canonSeg sends (seg log results i)
+          ires.getD i "?" != results.getD i "?" ||
+            canonSeg (blockLen i) (seg ilog ires i) != canonSeg (blockLen i) (seg log results i)
         match firstBad with
         | some i =>
           let pid := opProp (opl.getD i "")
-          let extra := if pid != "C17" && (opl.take i).any (fun o => o.startsWith "add" || o.startsWith "rm") then ",~C17" else ""
+          -- a difference in what the callbacks' own sends cause is a routing matter whatever operation ran the callbacks
+          let nested := (seg ilog ires i).filter (·.startsWith "n") != (seg log results i).filter (·.startsWith "n")
+          let pid := if nested && pid != "C16" then pid ++ ",C16" else pid
+          let extra := if !(pid.startsWith "C17") && (opl.take i).any (fun o => o.startsWith "add" || o.startsWith "rm") then ",~C17" else ""
           .prop (pid ++ extra) ("operation " ++ toString i ++ " (" ++ ((opl.getD i "").splitOn "/").headD "" ++
             ") differs from the specified dispatch/routing/registry/exchange behaviour") a
         | none =>
